@@ -167,7 +167,10 @@ func genPlanC04(rt *rapid.T, realClock bool) *Plan {
 		if rapid.IntRange(0, 14).Draw(rt, "rep") == 0 {
 			g.Repeat = rapid.IntRange(1, 4).Draw(rt, "repeat") // back-to-back copies: the 2nd.. are repetitions of the previous number
 		}
-		if !c.TCP && rapid.IntRange(0, reconnectOdds).Draw(rt, "reconnect") == 0 {
+		if rapid.IntRange(0, 40).Draw(rt, "stray-connres") == 0 {
+			g = GwStep{AfterUs: g.AfterUs, Kind: "connres-stray", Chan: rapid.SampledFrom([]string{"cur", "cur", "other"}).Draw(rt, "stray-chan"), AbsCh: rapid.IntRange(0, 253).Draw(rt, "stray-absch"), Tag: g.Tag}
+		}
+		if rapid.IntRange(0, reconnectOdds).Draw(rt, "reconnect") == 0 {
 			g = GwStep{AfterUs: g.AfterUs, Kind: "discreq", Chan: "cur", Tag: g.Tag}
 			if rapid.IntRange(0, 2).Draw(rt, "behind") == 0 {
 				g.Behind = rapid.IntRange(1, 4).Draw(rt, "behind-n")
